@@ -124,6 +124,8 @@ type Sim struct {
 	actors   map[int]*actor
 	byGoid   map[int64]*actor
 	pending  map[int64]*fakeConn // fake created by newConn() on this goroutine, id not yet known
+	deadSeen map[int64]bool      // connections whose dead() region was entered
+	deadDone map[int64]bool      // ... and left (pool.dead.done logged)
 	fakes    []*fakeConn
 	arrive   chan int
 	freeRun  bool
@@ -144,7 +146,7 @@ type Viol struct {
 }
 
 var defaultPark = map[string]bool{
-	"h.start": true, "h.invoke": true, "h.runexit": true, "h.closer": true,
+	"h.start": true, "h.invoke": true, "h.runexit": true, "h.closer": true, "pool.dead.enter": true,
 	"pool.acq.pop.check": true, "pool.acq.pop.ok": true, "pool.acq.pop.dead": true,
 	"pool.acq.new.cancel": true, "pool.acq.new.closed": true, "pool.acq.new.ready": true, "pool.acq.new.dead": true,
 	"pool.acq.wait": true, "pool.acq.wait.got": true, "pool.acq.wait.stuck": true, "pool.acq.wait.cancel": true, "pool.acq.wait.closed": true,
@@ -214,6 +216,24 @@ func (s *Sim) at(a *actor, point string, key int64) {
 			a.closeWin()
 			closeWin = false
 		}
+		// scheduling point inside dead(): the caller has passed the `deleted` test-and-set and holds c.mu,
+		// nothing of the region has happened yet. Parking here lets a second death notification for the
+		// same connection (Run exit vs. the mark-dead path of Invoke) run up to the lock meanwhile.
+		s.park(a, "pool.dead.enter", key)
+		s.mu.Lock()
+		dup := s.deadSeen[key]
+		s.deadSeen[key] = true
+		s.mu.Unlock()
+		if dup {
+			// the death of this connection is being recorded a second time: one death would free two
+			// slots (and the counter could go negative, which panics). Record it and end this goroutine
+			// here (deferred unlocks run), so that the schedule can be finished and reported with a replay.
+			s.mu.Lock()
+			s.append(a.id, "pool.dead.twice", key)
+			s.mu.Unlock()
+			s.violate("double-dead", fmt.Sprintf("death of connection %d is recorded twice (two dead() callers passed the deleted check)", key))
+			runtime.Goexit()
+		}
 		s.sensDead.Lock() // no Dead() check is in progress while death is recorded and signalled
 		a.writer = true
 	}
@@ -231,6 +251,9 @@ func (s *Sim) at(a *actor, point string, key int64) {
 		a.closeWin()
 	}
 	if point == "pool.dead.done" {
+		s.mu.Lock()
+		s.deadDone[key] = true
+		s.mu.Unlock()
 		a.writer = false
 		s.sensDead.Unlock()
 	}
@@ -406,7 +429,7 @@ func (s *Sim) newConn() pool.Conn {
 
 // NewSim builds the pool.
 func NewSim(max int64, parkAll bool, T time.Duration) *Sim {
-	s := &Sim{actors: map[int]*actor{}, byGoid: map[int64]*actor{}, pending: map[int64]*fakeConn{},
+	s := &Sim{actors: map[int]*actor{}, byGoid: map[int64]*actor{}, pending: map[int64]*fakeConn{}, deadSeen: map[int64]bool{}, deadDone: map[int64]bool{},
 		arrive: make(chan int, 64), parkAll: parkAll, max: max, T: T}
 	verifhook.Set(s.hook)
 	s.dc = pool.NewDC(context.Background(), 2, s.newConn, pool.DCOptions{MaxOpenConnections: max})
@@ -429,6 +452,19 @@ func (s *Sim) startCaller(x int, deadline time.Duration) {
 	}
 	s.mu.Unlock()
 	go func() {
+		normal := false
+		defer func() {
+			// without the normal epilogue only if the goroutine was ended inside a hook (double-dead)
+			if !normal {
+				a.closeWin()
+				s.mu.Lock()
+				a.result = "err"
+				s.append(a.id, "h.ret", 1)
+				delete(s.byGoid, goid())
+				s.mu.Unlock()
+				s.finish(a)
+			}
+		}()
 		s.register(a)
 		s.park(a, "h.start", int64(x))
 		a.openWin(&s.sensClose) // window: Close's flag swap is excluded until the first hook or the return
@@ -453,6 +489,7 @@ func (s *Sim) startCaller(x int, deadline time.Duration) {
 		s.mu.Lock()
 		delete(s.byGoid, goid())
 		s.mu.Unlock()
+		normal = true
 		s.finish(a)
 	}()
 }
@@ -647,6 +684,12 @@ func (s *Sim) settle(quiet time.Duration) {
 		all := true
 		for id, a := range s.actors {
 			if id < ActProbe && a.started && !a.finished {
+				all = false
+			}
+		}
+		// a killed connection is in flight until its death is recorded (by its Run goroutine or by a holder)
+		for _, f := range s.fakes {
+			if f.id >= 0 && f.killed && !(f.exited && s.deadDone[f.id]) {
 				all = false
 			}
 		}
